@@ -3,7 +3,7 @@ import ast
 
 from tfsa.flow import Flow, walk_terms
 from tfsa.loader import own_nodes, AnalysisError
-from tfsa.pointsto import PointsTo, is_sorted_items_copy, sorted_copy_info, STAR, ELEM
+from tfsa.pointsto import inplace_rekey, PointsTo, is_sorted_items_copy, sorted_copy_info, STAR, ELEM
 from tfsa.reach import ReachDefs
 from tfsa.report import norm
 from tfsa.resolve import const_str
@@ -125,7 +125,7 @@ def ordered_by_construction(ctx, pt, ins, all_ins):
             if not (o.kind == "dict" and isinstance(o.node, ast.Call) and not o.node.args and not o.node.keywords):
                 return False, "target dictionary is not created empty in the same function"
     for other, objs in all_ins:
-        if other is not ins and (objs & base) and other.how != "del":
+        if other is not ins and (objs & base) and other.how not in ("del", "rekey"):
             return False, "the dictionary is also inserted into at line %s" % getattr(other.node, "lineno", "?")
     return True, "filled only in `for %s in %s`" % (ins.key.id, norm(loop.iter))
 
@@ -167,30 +167,6 @@ def key_certainly_present(ctx, pt, ins):
 class SortEvent:
     def __init__(self, fn, stmt, target, src, deep=False, inplace=False):
         self.fn, self.stmt, self.target, self.src, self.deep, self.inplace = fn, stmt, target, src, deep, inplace
-
-
-def inplace_rekey(loop):
-    """`for k in sorted(D): D[k] = D.pop(k)` - every key is moved to the end in ascending order: the same object ends up
-    with its keys sorted.  Returns the expression D, else None."""
-    if not (isinstance(loop, ast.For) and isinstance(loop.target, ast.Name) and not loop.orelse and len(loop.body) == 1):
-        return None
-    it = loop.iter
-    if not (isinstance(it, ast.Call) and isinstance(it.func, ast.Name) and it.func.id == "sorted" and len(it.args) == 1 and not it.keywords):
-        return None
-    d = it.args[0]
-    while isinstance(d, ast.Call) and ((isinstance(d.func, ast.Name) and d.func.id in ("list", "tuple") and len(d.args) == 1) or
-                                        (isinstance(d.func, ast.Attribute) and d.func.attr == "keys" and not d.args)):
-        d = d.args[0] if isinstance(d.func, ast.Name) else d.func.value
-    st = loop.body[0]
-    k = loop.target.id
-    if not (isinstance(st, ast.Assign) and len(st.targets) == 1 and isinstance(st.targets[0], ast.Subscript) and norm(st.targets[0].value) == norm(d)
-            and isinstance(st.targets[0].slice, ast.Name) and st.targets[0].slice.id == k):
-        return None
-    v = st.value
-    if isinstance(v, ast.Call) and isinstance(v.func, ast.Attribute) and v.func.attr == "pop" and norm(v.func.value) == norm(d) and len(v.args) == 1 \
-            and isinstance(v.args[0], ast.Name) and v.args[0].id == k:
-        return d
-    return None
 
 
 def sort_events(ctx, pt, fn):
@@ -338,7 +314,7 @@ def canonical_order(ctx, pt, site):
     nob = 0
     for p in sorted(paths, key=lambda x: (len(x), x)):
         objs = paths[p]
-        ins_here = [(i, o) for (i, o) in all_ins if (o & objs) and i.how != "del"]
+        ins_here = [(i, o) for (i, o) in all_ins if (o & objs) and i.how not in ("del", "rekey")]
         unordered = []
         for i, o in ins_here:
             ok, why = ordered_by_construction(ctx, pt, i, all_ins)
@@ -423,7 +399,7 @@ def check_sort_event(ctx, pt, site, ev, path, objs, all_ins, helpers, kp, nested
     last_key = path[-1] if path else None
 
     def unordered_insertion(i):
-        if i.how == "del":
+        if i.how in ("del", "rekey"):
             return False
         if i.node is ev.stmt:
             return False
